@@ -11,7 +11,14 @@ proof gate (coq/Props/C12.v over the regenerated table coq/Gen/G_sites.v + the u
             book    random sequences of site-transforming calls (change_charge, sort_charge, set_common_charges, GroupedSite / group_sites
                     with every policy, add_op / rename_op / remove_op, deep copies): after EVERY call ALL sites of the pool are re-verified
                     against the documentation operators through their state labels (label -> basis index -> matrix elements)
-            corr    correlation_function(autoJW) on random states  vs  dense <psi| A_i B_j |psi>
+            corr    correlation_function(autoJW) on random states  vs  dense <psi| A_i B_j |psi>  (options sites1/sites2 as int / unsorted /
+                    boundary lists, hermitian=True incl. the branch that drops the flag, operators as lists and as arrays, opstr='JW',
+                    the documented refusals)
+            ctor    constructor options outside the table: falsy conserve values, documented defaults, invalid values (ValueError)
+            species spin_half_species for all cons_N x cons_Sz: the two sites, their charges N_up +- N_down, and grouped = SpinHalfFermionSite
+            coverage table (ctx.cov['anchored_code']): every function/method of site.py and the named JW functions of terms.py / mps.py
+                    enumerated from the source (harness/c12_cov.py) x the lines executed in the runner processes (sys.monitoring);
+                    a name that is neither executed nor classified is a correspondence failure
             mpsterm every MPS-level consumer of MPS._term_to_ops_list (expectation_value_term, term_correlation_function_right/left,
                     term_list_correlation_function_right, apply_local_term, expectation_value_terms_sum) with odd and even fermionic terms
                     vs dense Jordan-Wigner operators; the triple (ops, i_min, has_extra_JW) of _term_to_ops_list for JW_from_right in
@@ -35,6 +42,7 @@ F17_KEY = 'C12:GroupedSite:charges=drop:heterogeneous-dims:IndexError'
 F18_KEY = 'C12:GroupedSite:charges=same:after-set_common_charges:charge_to_JW_parity-list:TypeError'
 F121_KEY = 'C12:set_common_charges:sort_charge=False:UnboundLocalError-leg'
 F122_KEY = 'C12:set_common_charges:charges-not-reduced-modulo-new_mod:ValueError-charges-invalid'
+F123_KEY = 'C12:remove_op:hc_ops-asymmetric-after-add_op-hc=None:dangling-hc_ops-entry'
 
 
 # ---------------------------------------------------------------------------------------------------------------------
@@ -428,6 +436,19 @@ def book_cases(rng, ctx, n):
                         ['sort_charge', 1, False], ['change_charge', 1, 'perm'], ['deepcopy', 0], ['add_op', 0, 3, 5, True, {'hc': 'auto', 'arr': 'npc'}],
                         ['rename_op', 2, 1], ['remove_op', 1, 2], ['bad_call', 0, 9], ['group', [0, 2], 'same', ['a', 'b']],
                         ['sort_charge', ['g', 0], True], ['bad_call', ['g', 1], 3]]}]
+    # every refused / no-op call, every add_op mode and both sort_charge modes at least once (on a site with charged fermionic operators and
+    # on a grouped site), independent of the random draws
+    base = [spec('SpinHalfFermionSite', cons_N='N', cons_Sz='Sz'), spec('SpinSite', S=1.0, conserve='parity', sort_charge=False)]
+    for w in range(15):
+        cases.append({'sites': base, 'seed': ctx.seed * 100000 + 90000 + w,
+                      'steps': [['bad_call', w % 2, w], ['group', [0, 1], 'independent', None], ['bad_call', ['g', 0], w]]})
+    for w, (h, a) in enumerate([(h, a) for h in ('False', 'auto', 'str') for a in ('dense_default', 'npc')]):
+        cases.append({'sites': base, 'seed': ctx.seed * 100000 + 91000 + w,
+                      'steps': [['add_op', w % 2, 3 + w, 5 + 2 * w, True, {'hc': h, 'arr': a}], ['sort_charge', 1, w % 2 == 0, True],
+                                ['add_op', 1 - w % 2, 7 + w, 2 + w, False, {'hc': h, 'arr': a}]]})
+    # a second name for an existing operator (hc auto-determined), then its conjugate removed (finding F12.3 while it is open)
+    cases.append({'sites': [spec('SpinHalfSite', conserve='Sz')], 'seed': ctx.seed * 100000 + 92000,
+                  'steps': [['add_op', 0, 0, 4, False, {'hc': 'auto', 'arr': 'npc'}], ['remove_op', 0, 2], ['group', [0, 0], 'same', None]]})
     for cidx in range(n):
         n0 = rng.randint(1, 3)
         sites = [rng.choice(BOOK_POOL) for _ in range(n0)]
@@ -446,6 +467,8 @@ def book_cases(rng, ctx, n):
                 if np.prod([dims[i] for i in idxs]) > 64:
                     continue
                 labels = None if rng.random() < 0.7 else ['a', 'b', 'c'][:k]
+                if rng.random() < 0.15:
+                    idxs[rng.randrange(k)] = ['g', rng.randrange(4)]        # nested: a grouped site as a member
                 steps.append(['group', idxs, rng.choice(['same', 'drop', 'independent', 'independent']), labels])
             elif kind == 'group_sites':
                 k = rng.choice([3, 4])
@@ -462,7 +485,7 @@ def book_cases(rng, ctx, n):
                         'float': rng.random() < 0.3, 'second': rng.random() < 0.3, 'tuple': rng.random() < 0.3}
                 steps.append(['set_common', idxs, rng.choice(['same', 'drop', 'independent', 'sum', 'sum', 'diff', 'diff']), rng.random() < 0.8, opts])
             elif kind == 'sort_charge':
-                steps.append(['sort_charge', anyref(), rng.random() < 0.6])
+                steps.append(['sort_charge', anyref(), rng.random() < 0.6, rng.random() < 0.6])
             elif kind == 'change_charge':
                 mode = rng.choice(['drop', 'perm', 'perm', 'mod'])
                 steps.append(['change_charge', rng.randrange(ns), mode] + ([rng.choice([2, 3])] if mode == 'mod' else []))
@@ -1043,7 +1066,7 @@ def main(ctx):
     # ------------------------------------------------------------------ basis bookkeeping through sequences of site-transforming calls
     bcases = book_cases(rng, ctx, ctx.pick(260, 2600) * boost)
     bres = run_chunks(ctx, 'book', bcases)
-    nperm = nf121 = 0
+    nperm = nf121 = nf123 = 0
     kinds = {}
     optc = {}
     for case, r in zip(bcases, bres):
@@ -1087,10 +1110,15 @@ def main(ctx):
                      {'stream': 'book', 'case': {'sites': case['sites'], 'steps': case['steps'][:e['step'] + 1], 'seed': case['seed']},
                       'traceback': e.get('tb', '')[-700:]}, match_key=key)
         for pr in r.get('problems', [])[:1]:
+            key = 'C12:book:' + (pr['op'][0] if isinstance(pr['op'], list) else str(pr['op']))
+            if isinstance(pr['op'], list) and pr['op'][0] == 'remove_op' and pr['op'][-1] == 'hc_ops asymmetric before' \
+                    and any('hc_ops mentions' in x and 'which is not an operator' in x for x in pr['probs']):
+                key = F123_KEY
+                nf123 += 1
             ctx.fail('oracle', 'after %s (step %d) the site #%d = %s no longer is what the documentation says (read through its state labels): %s'
                      % (pr['op'], pr['step'], pr['site'], pr['tag'], '; '.join(pr['probs'])),
                      {'stream': 'book', 'case': {'sites': case['sites'], 'steps': case['steps'][:pr['step'] + 1], 'seed': case['seed']}},
-                     match_key='C12:book:' + (pr['op'][0] if isinstance(pr['op'], list) else str(pr['op'])))
+                     match_key=key)
     hist['book_steps_applied'] = kinds
     hist['book_options_applied'] = dict(sorted(optc.items()))
     for k_ in ['bad_call#%d' % i for i in range(15)] + ['sort_charge bunch=False', 'sort_charge bunch=True'] \
@@ -1099,6 +1127,7 @@ def main(ctx):
             ctx.fail('correspondence', 'book stream: the option value %r was never applied (stratification of the generator broken)' % k_, None)
     hist['set_common_charges_sort_charge_False_UnboundLocalError'] = nf121
     hist['set_common_charges_charges_not_reduced_modulo_new_mod'] = nf122
+    hist['remove_op_dangling_hc_ops_entry'] = nf123
     hist['book_cases_with_relabelled_basis'] = nperm
     _tick(ctx, 'book')
     # ------------------------------------------------------------------ correlation_function(autoJW)
@@ -1224,17 +1253,32 @@ def main(ctx):
         'the squared entries (coq/Model/SiteTab.v)',
         'C12 JW model: operator names are abstract ids with a need_JW flag; multiplication of names on one site is list concatenation',
         'C12 not in Coq: GroupedSite, set_common_charges, change_charge, MPOGraph construction and the contractions of correlation_function / term_(list_)correlation_function (dense oracle only)',
+        'C12 charge values (book, grouped, species): the charges of a freshly constructed predefined site are taken from the site (their consistency with '
+        'the operators is what the table stream and T12_charges_consistent check); every later call (set_common_charges with each policy / list form / '
+        'new_names / new_mod, change_charge, GroupedSite per policy, spin_half_species) is predicted from the documentation and compared per site as the '
+        'set of (name, mod, values over the labelled states): the ORDER of the charges is not compared (not documented for new_charges="same")',
+        'C12 add_op(hc=None): no prediction when the conjugate is determined only numerically (max difference between 1e-15 and 1e-12); operators whose only '
+        'conjugate candidates carry the other need_JW flag are added with hc=False (such a declaration would be inconsistent as operators with strings)',
+        'C12 coverage table: anchored but not quantified here: ' + '; '.join('%s (%s)' % kv for kv in c12_cov.OUTSIDE.items()),
     ]
     return ctx.finish(RULE, 'theorems of coq/Props/C12.v over the regenerated site table and for all terms; Model/JW.v run against '
                       'order_combine_term / handle_JW on every generated term; dense numpy oracle from the documentation for tables, terms, '
                       'MPOs, grouped sites and fermionic correlation functions')
 
 
-RULE = ('table: every configuration of G_sites.v + extra parameters (one case per site class x parameters x conserve); '
+RULE = ('table: every configuration of G_sites.v + extra parameters (one case per site class x parameters x conserve), each also with every '
+        'documented state-label alias and the accessors state_index(-ices) / get_op / op_needs_JW / valid_opname / get_hc_op_name / multiply_op_names / '
+        'multiply_operators on random products of 1-3 operator names, onsite_ops, charge_to_JW_signs; ctor: 5 falsy / 12 invalid / 8 default '
+        'constructor calls; species: 4 x 4 option values of spin_half_species + 2 invalid; '
         'terms: random terms of 1-8 operators on heterogeneous chains of 1-6 sites (repeated sites, indices outside the unit cell, odd and '
         'even fermion parity), non-trivial when >= 2 operators need JW and the product is non-zero; mpo: all ordered pairs of fermionic '
         'operators on chains of 2-6 sites + random quadruples; grouped: all pairs + random triples of 10 heterogeneous sites x 3 charge '
-        'policies (+ sort_charge=False sites, [site]*n), non-trivial when heterogeneous; book: random sequences of 2-6 site-transforming calls '
-        'on 1-3 sites of 21 configurations (5 with sort_charge=False), non-trivial when some state labels changed or >= 2 calls applied; '
+        'policies (+ sort_charge=False sites, [site]*n; kron(group=True/False) and kroneckerproduct of random operators when the sites share a '
+        'ChargeInfo), non-trivial when heterogeneous; book: random sequences of 2-6 site-transforming calls '
+        'on 1-3 sites of 21 configurations (5 with sort_charge=False) with their documented options (set_common_charges: policy / list form with '
+        'names, new_mod, index by name, float factors, two charges, sort_charge; sort_charge(bunch) on a scrambled basis; add_op hc=False/None/name x '
+        'dense permuted / unpermuted / default / npc.Array; 15 refused or no-op calls, each applied at least once), non-trivial when some state '
+        'labels changed or >= 2 calls applied; after every call operators, ALL state labels, hc_ops entries, the charge VALUES predicted from '
+        'the documentation and the returned permutations are checked; '
         'corr: fermionic pairs on random entangled states; mpsterm: 6 ops_list triples + 17 calls of the MPS-level term functions per chain '
         '(18 chains, odd-odd / even-even / mixed parities), non-trivial when the dense value is non-zero.  distinct = distinct canonical inputs.')
